@@ -393,18 +393,33 @@ let run_stats (w : string list) : string =
      | M.Ok tr ->
        (match M.propose_takeoff tr (fnum_of_hex ascent) (fnum_of_hex speed) (fnum_of_hex acc) with
         | M.Ok None -> "invalid"
-        | M.Ok (Some a) -> pr "%s travel=%s" (show_cross a.M.tk_cross) (show_fnum a.M.tk_travel)
+        | M.Ok (Some a) ->
+          (* when the altitude is never reached: how close the trajectory gets (certified upper bound of max z) *)
+          let extra = (match a.M.tk_cross with
+              | M.NoCrossing ->
+                let one = { M.qnum = Z.one; M.qden = Z.one } and zero = { M.qnum = Z.zero; M.qden = Z.one } in
+                (match M.segments tr with
+                 | M.Ok segs ->
+                   let ub = List.fold_left (fun acc (_, sg) ->
+                       let (_, u) = M.poly_max (nat_of_int 12) (M.zpoly sg) zero one in
+                       match acc with None -> Some u | Some x -> Some (if M.qle_bool x u then u else x)) None segs in
+                   (match ub with Some u -> " zmax=" ^ string_of_q u | None -> " zmax=none")
+                 | _ -> "")
+              | _ -> "") in
+          pr "%s travel=%s%s" (show_cross a.M.tk_cross) (show_fnum a.M.tk_travel) extra
         | r -> show_res_code (fun _ -> "0") r)
      | r -> "init:" ^ show_res_code (fun _ -> "0") r)
   | ["landing"; b; descent; thr] ->
     (match M.traj_init (bytes_of_hex b) with
      | M.Ok tr ->
        let total = show_res_code string_of_z (M.total_duration_msec tr) in
-       (match M.propose_landing tr (fnum_of_hex descent) (fnum_of_hex thr) with
-        | M.Ok (M.LandAtMs ms) -> pr "at:%s total=%s" (string_of_z ms) total
-        | M.Ok (M.LandAtMsFallback ms) -> pr "fallback:%s total=%s" (string_of_z ms) total
-        | M.Ok (M.LandIn (s, d, a, b, deg)) -> pr "in:%s:%s:%s:%s:%d total=%s" (string_of_z s) (string_of_z d) (string_of_q a) (string_of_q b) (int_of_nat deg) total
-        | r -> show_res_code (fun _ -> "0") r)
+       let show = function
+         | M.Ok (M.LandAtMs ms) -> pr "at:%s" (string_of_z ms)
+         | M.Ok (M.LandAtMsFallback ms) -> pr "fallback:%s" (string_of_z ms)
+         | M.Ok (M.LandIn (s, d, a, b, deg)) -> pr "in:%s:%s:%s:%s:%d" (string_of_z s) (string_of_z d) (string_of_q a) (string_of_q b) (int_of_nat deg)
+         | r -> show_res_code (fun _ -> "0") r in
+       pr "%s total=%s spec=%s" (show (M.propose_landing tr (fnum_of_hex descent) (fnum_of_hex thr))) total
+         (show (M.propose_landing_spec tr (fnum_of_hex descent) (fnum_of_hex thr)))
      | r -> "init:" ^ show_res_code (fun _ -> "0") r)
   | ["bbox"; b] ->
     (match M.traj_init (bytes_of_hex b) with
